@@ -428,6 +428,7 @@ prop(
     jobs=[
         {"test": "TestC17", "checks": 350, "race": True, "timeout": 400, "thorough": {"checks": 3000, "shards": 8, "timeout": 1700}},
         {"test": "TestC17SniffStress", "rapid": False, "race": True, "timeout": 300, "thorough": {"shards": 4}},
+        {"test": "TestC17RegistryStress", "rapid": False, "race": True, "timeout": 300, "thorough": {"shards": 4}},
     ],
     floor={"quick": 100, "thorough": 3000},
 )
